@@ -2,6 +2,7 @@
 import copy
 import random
 import time
+import warnings
 
 from .. import core
 from ..gen import descriptions as G
@@ -18,7 +19,15 @@ def loop(rec, shard, nshards, total, cap_s, fn):
         if rec.out_of_time():
             rec.count("stopped_by_wall_clock_cap")
             break
-        fn(n)
+        if random.Random(f"werror/{n}").random() < 0.15:
+            # hostile interpreter state: warnings are errors for this case (a host application or CI that runs with
+            # -W error / warnings.simplefilter("error")): a deprecated call on some path must not change the result
+            with warnings.catch_warnings():
+                warnings.simplefilter("error")
+                fn(n)
+            rec.count("cases_run_with_warnings_as_errors")
+        else:
+            fn(n)
         done += 1
         if random.Random(f"repeat/{n}").random() < 0.125:      # not a modulus of n: case kinds are chosen by n % k
             # hostile history: the SAME operation once more in the same process - whatever the first run left in
